@@ -3,6 +3,7 @@ package cert
 import (
 	"encoding/asn1"
 	"math/big"
+	"math/rand"
 	"time"
 )
 
@@ -18,9 +19,45 @@ func vhSerialRange() {
 		tries = 200
 	}
 	for t := 0; t < tries; t++ {
+		if !vSymbolic() && t == 0 {
+			// replay: make the real generator produce the draw of the solver's
+			// model (big.Int.Rand fills each 64-bit word from two Uint32 draws,
+			// low half first; Uint32 is Int63 >> 31)
+			var seq []int64
+			for k := 0; k < 3; k++ {
+				w, ok := vGet("rand1.w" + string(rune('0'+k)))
+				if !ok {
+					seq = nil
+					break
+				}
+				seq = append(seq, int64(uint64(uint32(uint64(w))))<<31, int64(uint64(w)>>32)<<31)
+			}
+			if seq != nil {
+				saved := defaultRandom
+				defaultRandom = rand.New(&vSeqSource{vals: seq})
+				vSerialOnce()
+				defaultRandom = saved
+				continue
+			}
+		}
 		vSerialOnce()
 	}
 }
+
+type vSeqSource struct {
+	vals []int64
+	k    int
+}
+
+func (s *vSeqSource) Int63() int64 {
+	if s.k < len(s.vals) {
+		v := s.vals[s.k]
+		s.k++
+		return v
+	}
+	return 0
+}
+func (s *vSeqSource) Seed(int64) {}
 
 func vSerialOnce() {
 	var sn *big.Int
